@@ -37,7 +37,7 @@ claim('C07', 'other',
       "as must-equalities (flow clause). Equality of payload bytes for every value is NOT decided (language-level "
       "memberwise copy is trusted).",
       "Trusted: clang's record layout for the x86-64 target of this sandbox; witness w_pay as the family of payload types.",
-      "type-level layout facts + structural constructor rules + must-equality dataflow",
+      "type-level layout facts + evaluated constructors (delegation, placement-new) + must-equality dataflow + comparison-domain evaluation of the drop predicate",
       "DESIGN.md section 4 C07")
 
 claim('C14', 'proof',
@@ -48,7 +48,7 @@ claim('C14', 'proof',
       "dispatcher (branch on prong < R_PRONG, true->left, false->right, same kind, arguments unchanged) closes the "
       "induction that wideX(control,k) reaches exactly leaf k; access<T>() is a derived-to-base conversion of the apex.",
       "Trusted: clang 14 / gcc 12 template instantiation and constant evaluation; the walker templates in gen/nfamily.py.",
-      "static_assert obligations discharged by two compiler front ends + AST shape rule on dispatchers",
+      "static_assert obligations discharged by two compiler front ends + AST shape rule on dispatchers + flow rule for initial/requested prong",
       "DESIGN.md section 4 C14")
 
 claim('C15', 'other',
@@ -88,7 +88,7 @@ claim('C02', 'other',
       "whole copy of the pending transition of a round whose guards did not cancel; nothing survives => no callback, same active "
       "state; requested is invalid at return. Comparison-domain evaluation of the de-duplication test.",
       "Assumes A1-A3; guards are unknown booleans, callbacks havoc exactly the computed effect set of their control flavour.",
-      "effect sets + CFG order rules + must-equality abstract interpretation + comparison-domain evaluation",
+      "effect sets + CFG order rules + must-equality abstract interpretation + comparison-domain evaluation of the branch conditions that control a guard round (located by control dependence)",
       "DESIGN.md section 4 C02")
 
 claim('C03', 'other',
@@ -97,7 +97,7 @@ claim('C03', 'other',
       "acceptance only on the not-cancelled edge; guard evaluation cannot reach enter/exit/reenter nor write the registry; "
       "replay/load never reach guards; the wrappers' return expression is checked on its truth table.",
       "Assumes A1-A3.",
-      "abstract interpretation with observer automaton + call-graph reachability + truth-table evaluation",
+      "abstract interpretation with observer automaton + call-graph reachability + statement-wise evaluation of the wrappers on the (flag before, flag after) truth table",
       "DESIGN.md section 4 C03")
 
 claim('C04', 'other',
@@ -106,7 +106,7 @@ claim('C04', 'other',
       "the limit covered by the C02.d/C01.a interpretation (loop exit edge with a request still outstanding), leftover request "
       "only consumable through the guarded loops.",
       "Termination of the plan-list walks rests on list integrity (C10 residue).",
-      "loop classification over the AST + call-graph acyclicity + abstract interpretation",
+      "spelling-independent bounded-loop analysis (local counter, +1 on every iterating path, constant bound) + call-graph acyclicity + abstract interpretation",
       "DESIGN.md section 4 C04")
 
 claim('C05', 'other',
@@ -115,7 +115,7 @@ claim('C05', 'other',
       "registry.active read at phase start, processRequest last; effect rules: phases cannot reach guards/enter/exit nor write "
       "the registry, event handed on by reference at every level, query() const and effect-free.",
       "Assumes A1-A3. All machine sizes through C14.",
-      "CFG order rules + effect sets over resolved callees",
+      "CFG order rules over apex dispatches flattened through helper call chains + effect sets over resolved callees",
       "DESIGN.md section 4 C05")
 
 claim('C06', 'other',
@@ -124,7 +124,7 @@ claim('C06', 'other',
       "pending/current transition objects into _pendingTransition/_currentTransition, exhaustive comparison-domain evaluation of "
       "every isActive(id) against active == id, request writers record _originId.",
       "Assumes A2. The comparison-domain evaluation is exhaustive because the checker first verifies the predicates only compare.",
-      "CFG order rules + reference-binding facts + finite comparison-domain evaluation",
+      "CFG order rules + reference-binding facts + finite comparison-domain evaluation + flow rules for the pending/current views",
       "DESIGN.md section 4 C06")
 
 claim('C11', 'other',
@@ -169,12 +169,16 @@ claim('C09', 'other',
       "DESIGN.md section 4 C09")
 
 claim('C10', 'other',
-      "Decides necessary structural conditions: capacity tests dominate every write of task storage and the full path is "
-      "write-free; per-path effect sets of linkTask and PlanT::remove (four neighbour cases); exactly-once count updates; the three "
-      "iterator types cache the successor before removal and agree; interval reasoning on the slot allocator's grow branch. "
-      "Integrity of the intrusive free list over every history and capacity is NOT decided.",
-      "Residue: free-list shape invariant (would need relational shape analysis or state enumeration = another family).",
-      "CFG dominance rules + per-path effect sets + sibling agreement + local interval analysis",
+      "Decides per-operation specifications on effect summaries: the task pool's emplace is a vacant-list pop on every path (full: "
+      "nothing written, INVALID returned; recycle / grow by one inside the array / last slot), remove a push; PlanT::linkTask "
+      "appends at the tail, PlanT::remove unlinks exactly the given node in all four neighbour situations and releases its slot; "
+      "the three plan iterators cache the successor before the current task can be removed, advance to it and agree; capacity "
+      "tests in append. Integrity of the intrusive lists over every history and capacity (the inductive invariant the per-operation "
+      "facts would have to be composed with) is NOT decided.",
+      "Residue: list shape invariant over histories (relational shape analysis or state enumeration = another family). The "
+      "summaries assume a node is never its own neighbour (that invariant).",
+      "effect summaries in an offset domain, one per combination of the entry-state comparisons the function consults "
+      "(predicate abstraction, no solver) + CFG dominance rules + local interval analysis",
       "DESIGN.md section 4 C10")
 
 claim('C12', 'other',
